@@ -14,7 +14,11 @@ pub fn v4_header(buf: &mut [u8], total: usize, opcode_base: u8, max_ops: Option<
     buf[0..4].copy_from_slice(&ul.to_le_bytes());
     buf[4] = 4;
     buf[5] = 0;
-    buf[6..10].copy_from_slice(&((HDR_LEN - 10) as u32).to_le_bytes());
+    // standard_opcode_lengths has opcode_base - 1 entries (at most 12 fit this buffer); the empty include-directory and
+    // file-name tables follow it directly, and header_length says so
+    let n = (opcode_base as usize).saturating_sub(1);
+    assert!(n <= 12);
+    buf[6..10].copy_from_slice(&((16 + n + 2 - 10) as u32).to_le_bytes());
     buf[10] = p[0]; // minimum_instruction_length
     buf[11] = max_ops.unwrap_or(p[1]); // maximum_operations_per_instruction (concrete in the 64-bit division lanes)
     buf[12] = p[2]; // default_is_stmt
@@ -22,12 +26,12 @@ pub fn v4_header(buf: &mut [u8], total: usize, opcode_base: u8, max_ops: Option<
     buf[14] = p[4]; // line_range
     buf[15] = opcode_base;
     let mut i = 0;
-    while i < 12 {
+    while i < n {
         buf[16 + i] = lens[i];
         i += 1;
     }
-    buf[28] = 0; // no include directories
-    buf[29] = 0; // no file names
+    buf[16 + n] = 0; // no include directories
+    buf[17 + n] = 0; // no file names
 }
 
 pub fn mhdr(h: &LineProgramHeader<EndianSlice<'_, LittleEndian>>) -> MHdr {
@@ -169,7 +173,7 @@ step_harness!(c04_q_step_special_twin, 13, false, true, |a| {
     kani::assume(op >= 13);
     (LineInstruction::Special(op), MIns::Special(op))
 });
-step_harness!(c04_t_step_special_vliw, 10, Some(4), true, false, |a| {
+step_harness!(c04_q_step_special_vliw, 10, Some(4), true, false, |a| {
     let op = a as u8;
     kani::assume(op >= 10);
     (LineInstruction::Special(op), MIns::Special(op))
@@ -179,7 +183,6 @@ step_harness!(c04_t_step_special_base1, 1, false, false, |a| {
     kani::assume(op >= 1);
     (LineInstruction::Special(op), MIns::Special(op))
 });
-step_harness!(c04_t_step_special_base255, 255, false, false, |a| (LineInstruction::Special(255), MIns::Special(255)));
 // DW_LNS_advance_pc with a full 64-bit operand: the 64-bit divider by a *symbolic* max_ops exceeds the solver, so
 // max_ops is concrete per lane (1, 2, 3, 4, 255); min_inst_len, line parameters, registers and operand stay symbolic.
 step_harness!(c04_q_step_advance_pc_m1, 13, Some(1), false, false, |a| (LineInstruction::AdvancePc(a), MIns::AdvancePc(a)));
@@ -190,7 +193,7 @@ step_harness!(c04_t_step_advance_pc_m255, 13, Some(255), true, false, |a| (LineI
 // symbolic max_ops with an 8-bit operand
 step_harness!(c04_q_step_advance_pc_small, 13, false, false, |a| (LineInstruction::AdvancePc(a & 0xff), MIns::AdvancePc(a & 0xff)));
 step_harness!(c04_q_step_const_add_pc, 13, false, false, |a| (LineInstruction::ConstAddPc, MIns::ConstAddPc));
-step_harness!(c04_t_step_const_add_pc_vliw, 4, Some(3), true, false, |a| (LineInstruction::ConstAddPc, MIns::ConstAddPc));
+step_harness!(c04_q_step_const_add_pc_vliw, 4, Some(3), true, false, |a| (LineInstruction::ConstAddPc, MIns::ConstAddPc));
 step_harness!(c04_q_step_fixed_add_pc, 13, true, false, |a| (LineInstruction::FixedAddPc(a as u16), MIns::FixedAddPc(a as u16)));
 step_harness!(c04_q_step_advance_line, 13, false, false, |a| (LineInstruction::AdvanceLine(a as i64), MIns::AdvanceLine(a as i64)));
 step_harness!(c04_q_step_set_address, 13, true, false, |a| (LineInstruction::SetAddress(a), MIns::SetAddress(a)));
